@@ -52,6 +52,8 @@ type Input struct {
 	Waiting              map[uint32][]V
 	EligiblePresent      map[uint32]bool // a shard with an empty list may have no map entry at all
 	WaitingPresent       map[uint32]bool
+	NilEligible          bool // hand a nil eligible map to the shuffler (only honoured when no shard has an entry)
+	NilWaiting           bool // same for the waiting map
 	New                  []V
 	Unstake              []L
 	Additional           []L
@@ -444,6 +446,12 @@ func (in *Input) Build(order *vk.Rand) (*sharding.NodesShufflerArgs, sharding.Ar
 		NbShards: in.NbShards,
 		Epoch:    in.Epoch,
 	}
+	if in.NilEligible && len(args.Eligible) == 0 {
+		args.Eligible = nil
+	}
+	if in.NilWaiting && len(args.Waiting) == 0 {
+		args.Waiting = nil
+	}
 	args.NewNodes = make([]sharding.Validator, 0, len(in.New))
 	for _, v := range in.New {
 		val := NewVal(v)
@@ -635,6 +643,12 @@ func (in *Input) Dump() map[string]interface{} {
 			}
 		}
 		return out
+	}
+	if in.NilEligible && len(el) == 0 {
+		el = nil
+	}
+	if in.NilWaiting && len(wa) == 0 {
+		wa = nil
 	}
 	return map[string]interface{}{
 		"nbShards": in.NbShards, "nodesShard": in.NodesShard, "nodesMeta": in.NodesMeta,
